@@ -226,12 +226,14 @@ def list_lengths(el, s):
 class C02(Property):
     id = "C02"
     title = "Hostile flat input is absorbed: total, confined, bounded, order-free"
-    proof_module = "Proofs.C02Confined"
+    proof_module = "Proofs.C02Order"
     theorems = [
         "Flatland.Flat.Proofs.bounded_fromFlat",
         "Flatland.Flat.Proofs.bounded_setFlat",
         "Flatland.Flat.Proofs.confined_fromFlat",
         "Flatland.Flat.Proofs.confined_full_fails",
+        "Flatland.Flat.Proofs.order_free",
+        "Flatland.Flat.Proofs.order_free_full_fails",
     ]
     trusted_base = [
         "scalar set(text) is an input of the flat model (env.norm tables computed from the real scalar classes in isolation; C04's subject)",
